@@ -24,7 +24,8 @@ PID = "C03"
 LEVEL = "exploration"
 RULE = (
     "Hypothesis-generated statement programs (text, output, if/elif/else, for with else/filter/recursive/tuple targets, "
-    "break/continue, set, tuple set, block set, namespace create/assign, with, macro with defaults, call blocks, filter blocks) "
+"break/continue, set, tuple set, block set, namespace create/assign, with, macro with defaults (also defaults naming their "
+    "own / a later parameter), macro bodies reading varargs / kwargs with calls passing surplus arguments, call blocks, filter blocks) "
     "over a shared pool of 6 variable, 4 macro and 2 namespace names; half of the programs depth<=4 / <=25 statements, the "
     "other half depth<=5 / <=40 (quick) or depth<=6 / <=60 (thorough); each rendered on 3 data dicts in 4 environments against the reference interpreter, and re-rendered after a "
     "random bijective renaming into ASCII / Python-keyword / generated-code-like / dunder / NFKC-stable Unicode identifiers; "
@@ -35,9 +36,11 @@ RULE = (
 )
 ASSUMPTIONS = [
     "the reference interpreter (docs/templates.rst scoping rules; Python operator semantics for values) is right",
+    "a macro default that names its own or a later unbound parameter may read undefined or the enclosing variable (both "
+    "accepted, nothing else)",
     "declined, not judged by the reference (still checked by renaming + cross-environment agreement): a read from a nested "
-    "scope of a name that an enclosing template scope assigns unconditionally only later while an outer binding exists; macro "
-    "defaults reading later parameters; caller mentioned only in a nested macro; repr of undefined inside containers",
+    "scope of a name that an enclosing template scope assigns unconditionally only later while an outer binding exists; "
+    "caller / varargs / kwargs mentioned only in a nested macro; repr of undefined inside containers",
     "not generated (undocumented outcomes): break/continue inside buffering blocks, loop else branches or across macros; "
     "filter-block arguments that read variables; loop filters that can raise or read namespaces; loop.* / caller across "
     "macro and call-block boundaries; macros stored in namespaces",
@@ -118,7 +121,21 @@ def _check(case, allow_known=False):
             raise core.Excluded()  # F1
     src = G.print_program(prog)
     rsrc = G.print_program(prog, rename) if rename else None
-    exp = [I.interpret_ex(prog, d, guard=not allow_known) for d in datas]
+    exp = [I.interpret_ex(prog, d, guard=not allow_known, param_mode="undefined") for d in datas]
+    # A macro default that names its own / a later unbound parameter: the documentation allows two readings (an
+    # undefined value, or the enclosing variable); both are computed and the rendering must match one of them.
+    allowed = [None] * len(datas)
+    for i, (r, d) in enumerate(zip(exp, datas)):
+        if r.param_amb:
+            alt = I.interpret_ex(prog, d, guard=not allow_known, param_mode="outer")
+            if r.kind == "declined":
+                pass
+            elif alt.kind == "declined":
+                exp[i] = alt
+            elif (alt.kind, alt.value) != (r.kind, r.value):
+                allowed[i] = {(r.kind, r.value), (alt.kind, alt.value)}
+                r.labels.add("param_two_readings")
+            r.labels.add("param_default_self")
     if any(r.kind == "declined" and r.value != "Ambiguous" for r in exp):
         raise core.Discard()  # budget / unsupported: nothing is run
     for r, d in zip(exp, datas):
@@ -138,7 +155,7 @@ def _check(case, allow_known=False):
     # Every environment renders the original and/or the renamed program; all of them must print the same thing:
     # the reference output when the interpreter decides the data, else whatever the first rendering printed.
     # The default environment renders both spellings, the other three alternate (a pure function of the case).
-    want = [(r.kind, r.value) if r.kind != "declined" else None for r in exp]
+    want = [(r.kind, r.value) if (r.kind != "declined" and allowed[i] is None) else None for i, r in enumerate(exp)]
     origin = ["the reference interpreter expects"] * len(datas)
     flip = len(src) % 2
     for k, en in enumerate(ENV_NAMES):
@@ -153,6 +170,11 @@ def _check(case, allow_known=False):
             for i, d in enumerate(datas):
                 g = _render(t, G.rename_data(d, vren) if vren else d)
                 if want[i] is None:
+                    if allowed[i] is not None and g not in allowed[i]:
+                        raise core.Violation(
+                            "the reference interpreter allows %r (a parameter default naming an unbound parameter reads "
+                            "undefined or the enclosing variable), the %s program in the %s environment gives %r\n original: %s\n data: %r"
+                            % (sorted(allowed[i]), vname, en, g, src, datas[i]), env=en, variant=vname)
                     want[i] = g
                     origin[i] = "the %s program in the %s environment gives" % (vname, en)
                 elif g != want[i]:
@@ -165,6 +187,10 @@ def _check(case, allow_known=False):
             labels.add("rn_" + G.IDENT_CLASS_OF.get(v, "own"))
     for s in G.walk(prog):
         labels.add("s_" + s[0])
+        if s[0] == "macro":
+            va, kw = G._uses_special(s[4], "varargs"), G._uses_special(s[4], "kwargs")
+            if va or kw:
+                labels.add("macro_special_both" if va and kw else "macro_special_one")
         if s[0] == "for":
             if s[6]:
                 labels.add("s_for_recursive")
@@ -258,7 +284,7 @@ def case_strategy(max_depth, max_nodes):
 
     @st.composite
     def cases(draw):
-        prog = draw(G.programs(max_depth, max_nodes))
+        prog = draw(G.programs(max_depth, max_nodes, extras=True))
         datas = draw(G.datas(3))
         keys = sorted({k for d in datas for k in d})
         rename = draw(G.renamings(prog, extra=keys))
@@ -298,7 +324,7 @@ def floors(total, tier):
         return "no generated programs"
     msgs = []
     for name, lo in (("leak_probe", 0.05), ("read_before_write", 0.05), ("late_closure", 0.05), ("cond_store", 0.05),
-                     ("shadow", 0.05), ("nontrivial", 0.5)):
+                     ("shadow", 0.05), ("nontrivial", 0.5), ("macro_special_both", 0.02), ("param_default_self", 0.01)):
         if lab.get(name, 0) < lo * gen:
             msgs.append("%s %d/%d < %d%%" % (name, lab.get(name, 0), gen, lo * 100))
     if total.discarded > 0.15 * total.evaluations:
